@@ -8,6 +8,9 @@ CONSTANTS
   ImgNames = {"ext"}
   IdPool = {"rId1", "rId40"}
   NamePool = {"image0.png", "image2.png"}
+  SlimDims = {}
+  SlimOps = {}
+  DimGroups = {}
 INVARIANTS Inv_All Inv_DetectParts Inv_DetectRels Inv_ShapeWellFormed
 PROPERTIES Act_Frame
 CHECK_DEADLOCK FALSE
